@@ -324,8 +324,9 @@ def eval_adverb_scan_over_neutral(f, a, b, backend):
         return a
     if is_atom(b):
         b = [b]
+    b = _chars(b)
     b = [f(a,b[0]), *b[1:]]
-    r = list(itertools.accumulate(_chars(b),f))
+    r = list(itertools.accumulate(b,f))
     q = backend.kg_asarray(r)
     r = [a, *q]
     return backend.kg_asarray(r)
